@@ -318,7 +318,7 @@ pub fn c12(args: &[String]) -> i32 {
     let inv = crate::frag::INV;
     let small = |g: &mut Gen| -> WordS { crate::frag::gen_word(g) };
     for case in 0..n {
-        let w = if case % 3 == 0 { match parse(&g.word()) { Some(w) => w, None => continue } } else { small(&mut g) };
+        let mut w = if case % 3 == 0 { match parse(&g.word()) { Some(w) => w, None => continue } } else { small(&mut g) };
         let one = |g: &mut Gen| -> String { match g.rng.below(5) { 0 | 1 => inv[g.rng.below(7)].to_string(), 2 => ["C", "V", "O", "N"][g.rng.below(4)].to_string(), 3 => "[]".into(), _ => ["[+voice]", "[-cont]", "[+nasal]", "[+syll]"][g.rng.below(4)].to_string() } };
         let (short, long, what): (Vec<String>, Vec<String>, &str) = match case % 5 {
             0 => { // condensed rule = its sub-rules in sequence
@@ -349,10 +349,26 @@ pub fn c12(args: &[String]) -> i32 {
                 }
             }
             3 => { // optional = environment set of its explicit repetitions
-                let x = one(&mut g); let y = if g.rng.chance(2, 3) { one(&mut g) } else { String::new() };
-                let a = one(&mut g); let o = ["[+nasal]", "[+voice]"][g.rng.below(2)];
-                let (m, nmax, spec) = match g.rng.below(4) { 0 => (0, 1, format!("({x})")), 1 => (1, 3, format!("({x},1:3)")), 2 => (0, 2, format!("({x},2)")), _ => (2, 2, format!("({x},2:2)")) };
-                let before = g.rng.chance(1, 2);
+                let x = one(&mut g); let y = if g.rng.chance(2, 3) { let k = 1 + g.rng.below(3); (0..k).map(|_| inv[g.rng.below(4)].to_string()).collect::<Vec<_>>().join(" ") } else { String::new() };
+                let mut a = one(&mut g); let o = ["[+nasal]", "[+voice]"][g.rng.below(2)];
+                let mut before = g.rng.chance(1, 2);
+                // crafted words: the target, some filler, a false start of the remainder, then the remainder (the shape on which a retry
+                // that does not restore its position shows)
+                let ys: Vec<&str> = y.split(' ').filter(|t| !t.is_empty()).collect();
+                if ys.len() >= 2 && g.rng.chance(1, 2) {
+                    a = inv[4 + g.rng.below(3)].to_string(); before = false;
+                    let mut t = a.clone();
+                    for _ in 0..g.rng.below(3) { t.push_str(inv[g.rng.below(7)]); }
+                    for z in &ys[..1 + g.rng.below(ys.len() - 1)] { t.push_str(z); }
+                    for z in &ys { t.push_str(z); }
+                    if g.rng.chance(1, 3) { t.push_str(inv[g.rng.below(7)]); }
+                    match parse(&t) { Some(x) => w = x, None => continue }
+                }
+                let nseg: usize = w.sylls.iter().map(|s| s.segs.len()).sum();
+                // `(x,0)` and `(x,2:0)` have no upper bound: on a word of n segments their expansions are the repetitions up to n
+                let (m, nmax, spec) = match g.rng.below(6) { 0 => (0, 1, format!("({x})")), 1 => (1, 3, format!("({x},1:3)")), 2 => (0, 2, format!("({x},2)")), 3 => (2, 2, format!("({x},2:2)")),
+                    4 => (0, nseg, format!("({x},0)")), _ => (1, 2, format!("({x},1:2)")) };
+                if nseg > 9 { continue }
                 let s = if before { format!("{a} > {o} / {y} {spec} _") } else { format!("{a} > {o} / _ {spec} {y}") };
                 let alts: Vec<String> = (m..=nmax).map(|k| { let rep = vec![x.clone(); k].join(" "); if before { format!("{y} {rep} _") } else { format!("_ {rep} {y}") } }).collect();
                 (vec![s], vec![format!("{a} > {o} / :{{ {} }}:", alts.join(", "))], "optional")
@@ -369,7 +385,16 @@ pub fn c12(args: &[String]) -> i32 {
         st.inc("c12.cases"); st.inc(&format!("c12.{what}"));
         if let Out::Ok(r) = &a { if *r != w { st.inc("c12.nontrivial"); } }
         if !eq_outcome(&a, &b) {
-            let fam = if what == "optional" { ":optional" } else if what == "metathesis" { ":metathesis" } else { "" };
+            // which way the two differ is part of the identity of the finding: D12 makes the shorthand MISS matches when something follows the optional
+            let has_remainder = short[0].split('/').nth(1).map_or(false, |e| { let e = e.trim(); !(e.starts_with('(') && e.ends_with("_")) && !(e.starts_with('_') && e.ends_with(')')) });
+            // positions rewritten by the shorthand / by the expansion (the rules here only change features, so positions correspond)
+            let touched = |o: &Out<WordS>| -> Option<Vec<bool>> { match o { Out::Ok(r) => { let (x, y) = (segs_of(r), segs_of(&w)); if x.len() == y.len() { Some(x.iter().zip(&y).map(|(p, q)| p != q).collect()) } else { None } } _ => None } };
+            let fam = if what == "optional" {
+                match (touched(&a), touched(&b)) {
+                    (Some(ta), Some(tb)) if ta.iter().zip(&tb).all(|(x, y)| !*x || *y) && has_remainder => ":optional:misses-with-remainder",
+                    (Some(ta), Some(tb)) if ta.iter().zip(&tb).all(|(x, y)| *x || !*y) => ":optional:fires-where-no-expansion-does",
+                    _ => ":optional:other" }
+            } else if what == "metathesis" { ":metathesis" } else { "" };
             println!("FINDING c12-{what}-differs{fam} shorthand={short:?} expansion={long:?} word={} got_short={} got_long={}", word_flat(&w, false),
                 match &a { Out::Ok(r) => word_flat(r, false), o => o.class() }, match &b { Out::Ok(r) => word_flat(r, false), o => o.class() });
         }
